@@ -76,7 +76,9 @@ HARNESSES = [
     dict(name="alloc_tables", src="alloc_tables.c", extra_src=["lib/ext2fs/blknum.c"],
          funcs=["ext2fs_allocate_tables", "ext2fs_allocate_group_table", "flexbg_offset",
                 "ext2fs_bg_free_blocks_count_set", "ext2fs_free_blocks_count_add"],
-         configs=[{"FLEX": 1, "LGPF": 1, "BPG": 16, "MAXG": 3, "_unwindset": AT_UW(16, 3)}],
+         configs=[dict(FLEX=f, LGPF=l, BPG=16, MAXG=3, NG=ng, ITB=itb, _unwindset=AT_UW(16, 3), _tier=t)
+                  for f, l, ng, itb, t in ((1, 0, 3, 2, "quick"), (0, 0, 3, 2, "quick"), (1, 1, 3, 2, "quick"),
+                                           (1, 2, 3, 1, "thorough"), (1, 1, 2, 3, "thorough"), (0, 1, 3, 2, "thorough"))],
          unwind=4, backends=["kissat", "default"],
          bound="TBD"),
     dict(name="get_free", src="get_free.c", extra_src=["lib/ext2fs/blknum.c"],
